@@ -139,7 +139,8 @@ Definition with_selects (m : module) (s : list dep) : module :=
      m_env_global := m_env_global m; m_env_early := m_env_early m; m_relpath := m_relpath m;
      m_srcdir := m_srcdir m; m_build_dep_files := m_build_dep_files m;
      m_is_build_dep := m_is_build_dep m; m_is_global_build_dep := m_is_global_build_dep m;
-     m_is_binary := m_is_binary m; m_context_id := m_context_id m; m_defined_in := m_defined_in m |}.
+     m_is_binary := m_is_binary m; m_context_id := m_context_id m; m_defined_in := m_defined_in m;
+     m_download := m_download m |}.
 
 (* Build::new: the binary's selects become  CLI selects ++ app selects ++ [Hard context::<builder>] *)
 Definition build_binary (binary : module) (builder_name : str) (cli_selects : list dep) : module :=
